@@ -75,4 +75,21 @@ PROPS["C16"] = dict(
     level_note="Trusted: Lean kernel; factgen; golang-jwt cryptography; echo. Persistence of clients/ACLs across restart is decided under C14.",
 )
 
+PROPS["C13"] = dict(
+    modules=["Hub.Props.C13"],
+    gens=["c13"],
+    rule="(a) random sequences of namespace assertions, URI compactions (hash/slash namespaces, empty local part, colons/slashes/hashes/non-ASCII in "
+         "the local part), CURIE expansions and store restarts against the real NamespaceManager, every answer and the final prefix table compared; "
+         "(b) identifiers introduced as entity ids in batches with restarts in between, rank order of their internal ids compared (ids never change, "
+         "never collide, later ones are larger); non-trivial = at least two namespaces / three ids and at least one restart",
+    trusted=["badger Sequence lease (ids resume at or beyond the persisted lease)", "goroutine interleavings of concurrent asserters are not in the model (sampled under C05)"],
+    assumptions=["namespace state is persisted inside the locked assertion (regenerated fact)"],
+    level_text="Proof: the prefix table is a bijection with prefixes exactly ns0..ns(n-1) in every reachable state (assert_wf, ns_bijection, wf_reachable), "
+               "mappings are permanent (ns_permanent), compacting any http(s) URI and expanding it returns the URI (curie_roundtrip, over all strings), "
+               "uri<->id stays one-to-one with strictly growing ids across assertions and restarts/crashes (id_assert_wf, id_permanent). The assertion's "
+               "body, its lock bracket and the split functions are re-extracted from store.go on every run; the real manager is compared with the model "
+               "on generated sequences with restarts.",
+    level_note="Trusted: Lean kernel, factgen, badger. Concurrent asserters vs context readers: the accessor-copy fact is checked; schedules are sampled only.",
+)
+
 NOT_YET = {}
